@@ -147,6 +147,12 @@ def cases(tier, seed):
     for i in range(n):
         yield {"gen": rnd.choice((4, 5)), "seed": rnd.randrange(1 << 30),
                "n": rnd.randint(1, 30), "combos": None}
+    # the same object initialised a second time; the console then repeats, byte for byte, what
+    # it had reported last in the first life - although it said something else in between
+    for i in range(12 if tier == "quick" else 1500):
+        yield {"k": "reinit", "gen": (4, 5)[i % 2], "seed": rnd.randrange(1 << 30),
+               "kinds": rnd.choice([["zone"], ["ac"], ["timer"], ["zone", "ac", "timer"],
+                                    ["error", "version", "zone"]])}
     for i in range(24 if tier == "quick" else 3000):
         yield {"k": "slow", "gen": rnd.choice((4, 5)), "seed": rnd.randrange(1 << 30),
                "n": rnd.randint(2, 6), "delay": rnd.choice([0.5, 6.5, 12.0]),
@@ -209,9 +215,10 @@ def make_frame(gen, rnd, w, combo, obs, kinds=None):
                 data[8 * a:8 * a + 4] = R.timer_bytes(rtimer(rnd)) + R.timer_bytes(rtimer(rnd))
             return con.f_std(0x37, bytes(data))
         ids = rnd.sample(ac_ids + [12], rnd.randint(1, len(ac_ids) + 1))
-        return con.f_std(0xC0, R.c0(0x33, 9, [
+        st = rnd.choice([9, 9, 10, 12])
+        return con.f_std(0xC0, R.c0(0x33, st, [
             bytes([a]) + R.timer_bytes(rtimer(rnd)) + R.timer_bytes(rtimer(rnd)) + b"\0" * 4
-            for a in ids]))
+            + rnd.randbytes(st - 9) for a in ids]))
     if kind == "error":
         a = rnd.choice(ac_ids + [9])
         return con.f_ext(0xFF10, R.error_body(a, rnd.choice([None, "ER: 01", "Zx"])))
@@ -381,9 +388,77 @@ def run_slow(case):
             "sample": {"gen": gen, "slow": case["delay"]}}
 
 
+def run_reinit(case):
+    import copy
+    gen = case["gen"]
+    rnd = random.Random(case["seed"])
+    viol, obs = [], {}
+
+    async def main(loop, net, log):
+        w = AW.ModelWorld(gen, loop, net, log, installation(gen, rnd))
+        if await w.init_and_sync() is not True:
+            viol.append({"mechanism": "init-failed-on-plain-console", "detail": {}})
+            return
+
+        def compare(where, frame=None):
+            w.feed()
+            dd = RM.diff(w.model.expected(), H.snapshot(w.at))
+            for path, ev, gv in dd[:3]:
+                viol.append({"mechanism": "getter-differs-from-latest-report-after-reinit:"
+                             + path.split(".")[-1],
+                             "detail": {"where": where, "path": path, "expected": ev, "got": gv,
+                                        "frame": frame, "kinds": case["kinds"]}})
+            return not dd
+
+        frames = []
+        for kind in case["kinds"]:
+            raw = make_frame(gen, rnd, w, None, obs, kinds=[kind])
+            frames.append(raw)
+            await w.inject(raw)
+        if not compare("first life"):
+            return
+        keep = copy.deepcopy({k: w.inst[k] for k in ("acs", "zones", "errors")})
+        await w.at.shutdown()
+        await quiesce(loop)
+        # meanwhile the console's state is another one: the second handshake reports that
+        for a in w.inst["acs"]:
+            a["status"] = rand_ac(gen, rnd, a["status"]["ac"])
+            a["status"]["error"] = 0
+        w.inst["errors"].clear()
+        for z in w.inst["zones"]:
+            z["status"] = rand_zone(gen, rnd, z["id"])
+        w.model = RM.RefModel(gen)
+        w._bufs.clear()
+        w.feed()
+        w.model = RM.RefModel(gen)
+        if await w.init_and_sync() is not True:
+            viol.append({"mechanism": "reinit-failed-on-plain-console", "detail": {}})
+            return
+        if not compare("after the second init"):
+            return
+        for k, val in keep.items():
+            w.inst[k] = val
+        w.console.inst = w.inst
+        for raw in frames:
+            await w.inject(raw)
+            obs["frames_repeated_after_reinit"] = obs.get("frames_repeated_after_reinit", 0) + 1
+            if not compare("frame of the first life repeated in the second", raw):
+                break
+        await w.at.shutdown()
+
+    _, log, st = H.run(main)
+    if st != "ok":
+        viol.append({"mechanism": "model-world-hang", "detail": {"status": st}})
+    n = obs.get("frames_repeated_after_reinit", 0)
+    return {"violations": H.cap(viol), "evals": n, "decided": n, "distinct": n, "obs": obs,
+            "sample": {"gen": gen, "kinds": case["kinds"]}}
+
+
 def run_case(case):
     if case.get("k") == "slow":
         return run_slow(case)
+    if case.get("k") == "reinit":
+        return run_reinit(case)
     gen = case["gen"]
     rnd = random.Random(case["seed"])
     viol = []
